@@ -315,7 +315,23 @@ def evaluate(ctx, n_cases, live_ratio=0.8, suite='synthetic'):
                 m2 = run_model(rq)
                 return (m2[0] == rec['timeline'] and (not rec['live'] or m2[1] == rec['first_last'])
                         and m2[2:] == rec['served'])
-            if rec['live'] and float_boundary(rec['rep'], rec['tm'], probe):
+            def componentwise(rec=rec):
+                # every clock-derived comparison of the implementation rounds on its own: each component of its answer must
+                # be the model's answer at SOME instant within +-2 us (not necessarily the same one for all components)
+                alts = []
+                for dlt in (0, -2, -1, 1, 2):
+                    tm2 = dict(rec['tm'], elapsed=rec['tm']['elapsed'] + dlt)
+                    if tm2['elapsed'] <= 0:
+                        continue
+                    r2, timing2 = build_impl(rec['rep'], tm2)
+                    tv2 = timing_vals(timing2)
+                    rq = [[1, model_rep(rec['rep']), tv2[3], tv2[2]], [3, model_rep(rec['rep']), tv2[1], tv2[2]]]
+                    rq += [model_serve(rec['rep'], tv2, t, n) for (t, n) in rec['queries']]
+                    alts.append(run_model(rq))
+                if not any(a[0] == rec['timeline'] for a in alts) or not any(a[1] == rec['first_last'] for a in alts):
+                    return False
+                return all(any(a[2 + i] == sv for a in alts) for i, sv in enumerate(rec['served']))
+            if rec['live'] and (float_boundary(rec['rep'], rec['tm'], probe) or componentwise()):
                 nfloat += 1
                 ctx.dist('float-boundary (model agrees at now+-2us)')
                 continue
